@@ -505,6 +505,125 @@ fn h_rep_canary() {
     let back: Array<u8> = Array::from(ArrayRep::from(arr));
     assert!(back.meta.flags.is_boolean());
 }
+// ---------------- first / last index of the minimum / maximum row (optimised `first rise`, `first fall`, `last rise`, `last fall`) ----------------
+/// reference: position of the first / last minimal / maximal row under the array order
+fn spec_index(a: &Array<u8>, want_max: bool, want_last: bool) -> usize {
+    let rc = a.row_count();
+    let mut best = 0;
+    let mut i = 1;
+    while i < rc {
+        let (b, r) = (ArrayCmpSlice(a.row_slice(best)), ArrayCmpSlice(a.row_slice(i)));
+        let better = if want_max { r > b } else { r < b };
+        let tie = r == b;
+        if better || (tie && want_last) {
+            best = i;
+        }
+        i += 1;
+    }
+    best
+}
+/// C06: the outcome does not depend on truthful sortedness marks; C08: it is the reference index; a fill in scope
+/// changes nothing for a non-empty array
+fn ck_index(shape: &[usize], n: usize, which: u8) {
+    let (a, data, _f, _k) = mk(shape, n);
+    kani::assume(truthful(&a));
+    let plain = Array { shape: Shape(shape.to_vec()), data: Data(data.clone()), meta: ArrayMeta(None) };
+    let env = Uiua { fill: if kani::any() { Some(kani::any::<u8>() as f64) } else { None } };
+    let call = |x: &Array<u8>| match which {
+        0 => x.first_min_index(&env),
+        1 => x.first_max_index(&env),
+        2 => x.last_min_index(&env),
+        _ => x.last_max_index(&env),
+    };
+    let (ra, rp) = (call(&a), call(&plain));
+    match (&ra, &rp) {
+        (Ok(x), Ok(y)) => assert!(*x == *y),
+        (Err(_), Err(_)) => {}
+        _ => assert!(false, "marked and unmarked array disagree on success"),
+    }
+    if a.row_count() > 0 {
+        let want = spec_index(&plain, which == 1 || which == 3, which >= 2);
+        assert!(rp.is_ok() && rp.unwrap() == want as f64);
+    } else {
+        // empty: the fill if there is one, otherwise an error
+        match env.fill {
+            Some(x) => assert!(rp.is_ok() && rp.unwrap() == x),
+            None => assert!(rp.is_err()),
+        }
+    }
+}
+//@ id=C06.e3.index.first_min_index.list3 props=C06,C08,C09 level=bounded tier=quick budget=900 bound="byte array of shape [3], all truthful mark sets, fill present or absent" desc="Array::first_min_index: the same outcome with and without truthful sortedness marks, equal to the reference index (ties: first); empty arrays give the fill or an error"
+#[kani::proof]
+#[kani::unwind(8)]
+fn h_index_first_min_index_list3() {
+    ck_index(&[3], 3, 0);
+}
+//@ id=C06.e3.index.first_min_index.empty props=C06,C08,C09 level=bounded tier=quick budget=900 bound="byte array of shape [0], all truthful mark sets, fill present or absent" desc="Array::first_min_index: the same outcome with and without truthful sortedness marks, equal to the reference index (ties: first); empty arrays give the fill or an error"
+#[kani::proof]
+#[kani::unwind(8)]
+fn h_index_first_min_index_empty() {
+    ck_index(&[0], 0, 0);
+}
+//@ id=C06.e3.index.first_min_index.mat2x2 props=C06,C08,C09 level=bounded tier=thorough budget=900 bound="byte array of shape [2, 2], all truthful mark sets, fill present or absent" desc="Array::first_min_index: the same outcome with and without truthful sortedness marks, equal to the reference index (ties: first); empty arrays give the fill or an error"
+#[kani::proof]
+#[kani::unwind(8)]
+fn h_index_first_min_index_mat2x2() {
+    ck_index(&[2, 2], 4, 0);
+}
+//@ id=C06.e3.index.first_max_index.list3 props=C06,C08,C09 level=bounded tier=quick budget=900 bound="byte array of shape [3], all truthful mark sets, fill present or absent" desc="Array::first_max_index: the same outcome with and without truthful sortedness marks, equal to the reference index (ties: first); empty arrays give the fill or an error"
+#[kani::proof]
+#[kani::unwind(8)]
+fn h_index_first_max_index_list3() {
+    ck_index(&[3], 3, 1);
+}
+//@ id=C06.e3.index.first_max_index.empty props=C06,C08,C09 level=bounded tier=quick budget=900 bound="byte array of shape [0], all truthful mark sets, fill present or absent" desc="Array::first_max_index: the same outcome with and without truthful sortedness marks, equal to the reference index (ties: first); empty arrays give the fill or an error"
+#[kani::proof]
+#[kani::unwind(8)]
+fn h_index_first_max_index_empty() {
+    ck_index(&[0], 0, 1);
+}
+//@ id=C06.e3.index.first_max_index.mat2x2 props=C06,C08,C09 level=bounded tier=thorough budget=900 bound="byte array of shape [2, 2], all truthful mark sets, fill present or absent" desc="Array::first_max_index: the same outcome with and without truthful sortedness marks, equal to the reference index (ties: first); empty arrays give the fill or an error"
+#[kani::proof]
+#[kani::unwind(8)]
+fn h_index_first_max_index_mat2x2() {
+    ck_index(&[2, 2], 4, 1);
+}
+//@ id=C06.e3.index.last_min_index.list3 props=C06,C08,C09 level=bounded tier=quick budget=900 bound="byte array of shape [3], all truthful mark sets, fill present or absent" desc="Array::last_min_index: the same outcome with and without truthful sortedness marks, equal to the reference index (ties: last); empty arrays give the fill or an error"
+#[kani::proof]
+#[kani::unwind(8)]
+fn h_index_last_min_index_list3() {
+    ck_index(&[3], 3, 2);
+}
+//@ id=C06.e3.index.last_min_index.empty props=C06,C08,C09 level=bounded tier=quick budget=900 bound="byte array of shape [0], all truthful mark sets, fill present or absent" desc="Array::last_min_index: the same outcome with and without truthful sortedness marks, equal to the reference index (ties: last); empty arrays give the fill or an error"
+#[kani::proof]
+#[kani::unwind(8)]
+fn h_index_last_min_index_empty() {
+    ck_index(&[0], 0, 2);
+}
+//@ id=C06.e3.index.last_min_index.mat2x2 props=C06,C08,C09 level=bounded tier=thorough budget=900 bound="byte array of shape [2, 2], all truthful mark sets, fill present or absent" desc="Array::last_min_index: the same outcome with and without truthful sortedness marks, equal to the reference index (ties: last); empty arrays give the fill or an error"
+#[kani::proof]
+#[kani::unwind(8)]
+fn h_index_last_min_index_mat2x2() {
+    ck_index(&[2, 2], 4, 2);
+}
+//@ id=C06.e3.index.last_max_index.list3 props=C06,C08,C09 level=bounded tier=quick budget=900 bound="byte array of shape [3], all truthful mark sets, fill present or absent" desc="Array::last_max_index: the same outcome with and without truthful sortedness marks, equal to the reference index (ties: last); empty arrays give the fill or an error"
+#[kani::proof]
+#[kani::unwind(8)]
+fn h_index_last_max_index_list3() {
+    ck_index(&[3], 3, 3);
+}
+//@ id=C06.e3.index.last_max_index.empty props=C06,C08,C09 level=bounded tier=quick budget=900 bound="byte array of shape [0], all truthful mark sets, fill present or absent" desc="Array::last_max_index: the same outcome with and without truthful sortedness marks, equal to the reference index (ties: last); empty arrays give the fill or an error"
+#[kani::proof]
+#[kani::unwind(8)]
+fn h_index_last_max_index_empty() {
+    ck_index(&[0], 0, 3);
+}
+//@ id=C06.e3.index.last_max_index.mat2x2 props=C06,C08,C09 level=bounded tier=thorough budget=900 bound="byte array of shape [2, 2], all truthful mark sets, fill present or absent" desc="Array::last_max_index: the same outcome with and without truthful sortedness marks, equal to the reference index (ties: last); empty arrays give the fill or an error"
+#[kani::proof]
+#[kani::unwind(8)]
+fn h_index_last_max_index_mat2x2() {
+    ck_index(&[2, 2], 4, 3);
+}
 //@ id=C05.e3.meta.mark_helpers props=C05,C09 level=complete tier=quick budget=600 desc="ArrayMeta mark helpers at the bit level: take_sorted_flags / take_value_flags return and clear exactly their group; or_sorted_flags sets only sortedness bits; mark_sorted_* set or clear exactly one bit; reset_flags clears all; an absent meta stays absent unless a bit must be set"
 #[kani::proof]
 fn h_meta_helpers() {
